@@ -1780,14 +1780,32 @@ func c15Alias(in []string) []string {
 		}
 	}
 	first, get := mk()
-	if err := cons.Consume(strings.NewReader(a), first); err != nil {
+	// every other case the payloads arrive in ONE *bytes.Buffer the caller resets and refills between calls
+	// (an in-memory source whose bytes the caller goes on using): what was delivered must not follow it
+	var shared *bytes.Buffer
+	if (len(a)+len(b)+rounds)%2 == 1 {
+		shared = &bytes.Buffer{}
+	}
+	src := func(s string) io.Reader {
+		if shared == nil {
+			return strings.NewReader(s)
+		}
+		shared.Reset()
+		shared.WriteString(s)
+		return shared
+	}
+	if err := cons.Consume(src(a), first); err != nil {
 		return []string{"ERR", proto.B(err.Error())}
 	}
 	for i := 0; i < rounds; i++ {
 		d, _ := mk()
-		if err := cons.Consume(strings.NewReader(b), d); err != nil {
+		if err := cons.Consume(src(b), d); err != nil {
 			return []string{"ERR", proto.B(err.Error())}
 		}
+	}
+	if shared != nil {
+		shared.Reset()
+		shared.WriteString(strings.Repeat("\xee", len(a)+len(b)+8)) // scribble over the source's storage
 	}
 	return []string{"KEPT", proto.B(get())}
 }
